@@ -51,6 +51,8 @@ def hash_str(s):
 def exc_name(e):
     if isinstance(e, ParseError):
         return "ParseError"
+    if type(e).__module__.startswith("lark.") and any(c.__name__ == "LarkError" for c in type(e).__mro__):
+        return "ParseError"
     if isinstance(e, conversions.ConversionNotFound):
         return "ConversionNotFound"
     if isinstance(e, FractionalDimensionError):
@@ -149,6 +151,8 @@ class Session:
     def arg(self, t):
         if t.startswith("s:"):
             return t[2:]
+        if t.startswith("h:"):            # arbitrary text: dot-separated hex code points
+            return "".join(chr(int(x, 16)) for x in t[2:].split(".") if x)
         if t.startswith("n:"):
             return int(t[2:])
         if t.startswith("u"):
@@ -252,6 +256,8 @@ class Session:
             return RawLine("ok\t" + self.state_digest())
         if f[0] == "U":
             return self.unit_op(f[1], f[2:])
+        if f[0] == "X" and f[1] == "ptree" and len(f) == 5:
+            return RawLine("ok\ts\t" + show_tree(tree_parser(f[2]).parse(self.arg(f[4]), start=f[3])))
         if f[0] == "X":
             return self.x_op(f[1], [self.arg(t) for t in f[2:]])
         raise Bad(f[0])
@@ -361,6 +367,45 @@ class Session:
         if op == "qparse":
             return Quantity.parse(a[0])
         raise Bad(op)
+
+
+_TREE_PARSERS = {}
+
+
+def makefile_args():
+    """Arguments of the Makefile rule `python -m lark.tools.standalone ARGS $<`."""
+    import re
+    text = open(os.path.join(REPO, "Makefile"), encoding="utf-8").read()
+    m = re.search(r"lark\.tools\.standalone([^\n|]*)", text)
+    if not m:
+        return ["--start", "unit", "--start", "quantity"]
+    return [x for x in m.group(1).split() if x not in ("$<", "\\")]
+
+
+def tree_parser(which):
+    """`shipped`: the checked-in generated module, no transformer (plain trees);
+    `fresh`: the installed lark compiling measured.lark the way the Makefile rule does."""
+    if which not in _TREE_PARSERS:
+        if which == "shipped":
+            from measured import _parser
+            _TREE_PARSERS[which] = _parser.Parser()
+        elif which == "fresh":
+            from lark.tools import build_lalr, lalr_argparser
+            path = os.path.join(REPO, "src", "measured", "measured.lark")
+            ns = lalr_argparser.parse_args(makefile_args() + [path])
+            try:
+                _TREE_PARSERS[which] = build_lalr(ns)[0]
+            finally:
+                ns.grammar_file.close()
+        else:
+            raise Bad(which)
+    return _TREE_PARSERS[which]
+
+
+def show_tree(t):
+    if hasattr(t, "children"):
+        return "(%s %s)" % (t.data, " ".join(show_tree(c) for c in t.children))
+    return "%s:%s" % (t.type, str(t))
 
 
 class RawLine:
